@@ -6,11 +6,28 @@
    the stream; after a rewind point (an accepted resume, a `_start_suspender`) it carries a number in
    1..next (a re-taken point), never a skipped one; the interruptions stream is never rolled back;
    RunStop.num_events is next-1 and lists every described stream.
-   PARTIAL: monitor streams, collect/stream datums are not in the engine model (bundler side: C15,
-   C16, C41, C45); C05_full below is the statement with exact counts at every RunStop, which the
-   unchanged code violates inside class C05-b. *)
+   The statement of the property, in full, for the streams the engine model has (bundled streams and
+   the interruptions stream), for every plan, device and schedule:
+   - C05_numbering_exact: every run is accepted by the refined monitor Engine/DocMon2.v, which also
+     tracks the checkpoint snapshot of the counters: a re-issued seq_num is never below the counter
+     value at the last `checkpoint` message that took effect;
+   - C05_successive_events (plain reading): two successive events of a stream never skip a seq_num
+     and carry consecutive seq_nums unless a rewind mark (a resume() call, a `_start_suspender`
+     message) lies between them;
+   - C05_checkpoint_protects (plain reading): an event followed by an effective `checkpoint` message
+     (nothing of its stream, no rewind mark in between) is never re-issued while no
+     `clear_checkpoint` is processed: re-issued seq_nums belong to points begun after the last checkpoint;
+   - C05_counts_exact: in a trace that never stops a run behind a rewind (outside finding class
+     C05-b), at every RunStop and for every stream it reports, the seq_nums emitted in that stream are
+     exactly 1..num_events: num_events = number of distinct seq_nums emitted = largest seq_num.
+   C05_full (exact counts at every RunStop) is violated by the unchanged code inside class C05-b
+   (C05_b_refuted).  Still outside the engine model: monitor streams, collect / stream datums
+   (bundler side: C15, C16, C41, C45).  The snapshot bound of DocMon2 is the one of explicit
+   `checkpoint` messages; the implicit checkpoints (close_run, stage/unstage, rewindable toggles) only
+   move the real snapshot up (Proofs/RE_DocsMon2.v: Rel_b_snapshot), so the bound is sound, not tight. *)
 From Coq Require Import List ZArith Bool.
 From BV Require Import Engine.RE Engine.REInst Engine.DocMon Proofs.RE_Docs Proofs.RE_DocsMon Proofs.RE_DocsCor.
+From BV Require Engine.DocMon2 Proofs.RE_Docs2 Proofs.RE_DocsMon2 Proofs.RE_DocsCor2 Proofs.RE_DocsExact.
 Import ListNotations.
 
 Theorem C05_numbering_partial :
@@ -49,6 +66,60 @@ Theorem C05_interruptions_never_rolled_back :
                Forall intr_exact (m_open m').
 Proof. exact interruptions_exact. Qed.
 Print Assumptions C05_interruptions_never_rolled_back.
+
+(* ---------------------------------------------------------------- the full numbering statement *)
+Theorem C05_numbering_exact :
+  forall (P : Type) (presume : P -> input -> outcome P) (plan_of : nat -> P)
+         (D : Type) (dev : D -> nat -> devmeth -> D * devres)
+         (d : D) (paus stag : list nat) (rec : bool) (evs : list event),
+    DocMon2.docs_ok rec (snd (run_steps P presume plan_of D dev (init P D d paus stag rec) evs)) = true.
+Proof. exact RE_DocsMon2.run_docs_ok. Qed.
+Print Assumptions C05_numbering_exact.
+
+Theorem C05_successive_events :
+  forall (P : Type) (presume : P -> input -> outcome P) (plan_of : nat -> P)
+         (D : Type) (dev : D -> nat -> devmeth -> D * devres)
+         (d : D) (paus stag : list nat) (rec : bool) (evs : list event)
+         (A : list RE_DocsCor2.item) (d1 : doc) (B : list RE_DocsCor2.item) (d2 : doc) (C : list RE_DocsCor2.item)
+         (u name n1 n2 : nat),
+    RE_DocsCor2.items (snd (run_steps P presume plan_of D dev (init P D d paus stag rec) evs)) =
+      A ++ RE_DocsCor2.IOb (ODoc d1) :: B ++ RE_DocsCor2.IOb (ODoc d2) :: C ->
+    RE_DocsCor2.on_stream u name d1 = Some n1 -> RE_DocsCor2.on_stream u name d2 = Some n2 ->
+    forallb (fun it => negb (RE_DocsCor2.touches u name it)) B = true ->
+    n2 <= S n1 /\ (forallb (fun it => negb (RE_DocsCor2.rewind_mark it)) B = true -> n2 = S n1).
+Proof. exact RE_DocsCor2.run_successive_events. Qed.
+Print Assumptions C05_successive_events.
+
+Theorem C05_checkpoint_protects :
+  forall (P : Type) (presume : P -> input -> outcome P) (plan_of : nat -> P)
+         (D : Type) (dev : D -> nat -> devmeth -> D * devres)
+         (d : D) (paus stag : list nat) (rec : bool) (evs : list event)
+         (A : list RE_DocsCor2.item) (d1 : doc) (B : list RE_DocsCor2.item) (mm : msg) (ok : obs)
+         (C : list RE_DocsCor2.item) (d2 : doc) (E : list RE_DocsCor2.item) (u name n1 n2 : nat),
+    RE_DocsCor2.items (snd (run_steps P presume plan_of D dev (init P D d paus stag rec) evs)) =
+      A ++ RE_DocsCor2.IOb (ODoc d1) :: B ++ RE_DocsCor2.IOb (OMsg mm) :: RE_DocsCor2.IOb ok :: C ++ RE_DocsCor2.IOb (ODoc d2) :: E ->
+    RE_DocsCor2.on_stream u name d1 = Some n1 ->
+    forallb (fun it => negb (RE_DocsCor2.touches u name it)) B = true ->
+    forallb (fun it => negb (RE_DocsCor2.rewind_mark it)) B = true ->
+    DocMon2.is_ckpt_msg mm = true -> RE_Docs2.ck_ok ok = true ->
+    forallb (fun it => negb (RE_DocsCor2.clear_mark it)) C = true ->
+    RE_DocsCor2.on_stream u name d2 = Some n2 -> n1 < n2.
+Proof. exact RE_DocsCor2.run_checkpoint_protects. Qed.
+Print Assumptions C05_checkpoint_protects.
+
+Theorem C05_counts_exact :
+  forall (P : Type) (presume : P -> input -> outcome P) (plan_of : nat -> P)
+         (D : Type) (dev : D -> nat -> devmeth -> D * devres)
+         (d : D) (paus stag : list nat) (rec : bool) (evs : list event),
+    let tr := snd (run_steps P presume plan_of D dev (init P D d paus stag rec) evs) in
+    stopped_behind rec tr = false ->
+    forall l1 u xs rs num l2, docs_of (flat_map snd tr) = l1 ++ DStop u xs rs num :: l2 ->
+    forall name N, In (name, N) num ->
+      (forall k, In k (RE_DocsExact.seqs u name l1) <-> (1 <= k /\ k <= N)) /\
+      List.length (nodup Nat.eq_dec (RE_DocsExact.seqs u name l1)) = N /\
+      (forall k, In k (RE_DocsExact.seqs u name l1) -> k <= N) /\ (1 <= N -> In N (RE_DocsExact.seqs u name l1)).
+Proof. exact RE_DocsExact.run_stops_exact. Qed.
+Print Assumptions C05_counts_exact.
 
 (* witness of C05-b (recorded from the implementation): events 1, 2, 3, pause, resume (roll-back to the
    checkpoint), abort before anything is re-taken: the RunStop says num_events = 0 although seq_nums 1..3 were emitted *)
@@ -90,4 +161,68 @@ Example C05_monitor_rejects :
   docs_ok false [(EvTask, [ODoc (DStart 0); ODoc (DDescr 0 0 [1]); ODoc (DEvent 0 0 1 []); ODoc (DEvent 0 0 1 [])])] = false /\
   docs_ok false [(EvTask, [ODoc (DStart 0); ODoc (DDescr 0 0 [1]); ODoc (DEvent 0 0 1 []); ODoc (DStop 0 XSuccess RsEmpty [(0, 2)])])] = false /\
   docs_ok false [(EvTask, [ODoc (DStart 0); ODoc (DDescr 0 0 [1]); ODoc (DEvent 0 0 1 []); ODoc (DStop 0 XSuccess RsEmpty [])])] = false.
+Proof. vm_compute. repeat split. Qed.
+
+(* ---------------------------------------------------------------- non-vacuity of the new theorems
+   recorded from the implementation: event 1, checkpoint, event 2, pause, resume (roll-back to the
+   second checkpoint), event 2 again - never event 1 *)
+(* ckp: {"plan": ["seq", ["m", "open_run", null, [], {}, null], ["m", "checkpoint", null, [], {}, null], ["m", "create", null, [], {"name": "primary"}, null], ["m", "read", 1, [], {}, null], ["m", "save", null, [], {}, null], ["m", "checkpoint", null, [], {}, null], ["m", "create", null, [], {"name": "primary"}, null], ["m", "read", 1, [], {}, null], ["m", "save", null, [], {}, null], ["m", "null", null, [], {}, null], ["m", "null", null, [], {}, null], ["m", "close_run", null, [], {}, null]], "devs": [["stage"], [], ["pause"], ["stage"]], "inject": [{"at": 12, "req": "pause"}], "script": ["resume"], "tag": "checkpoint protects"} *)
+Definition ckp_tapes := [(0, [TY {| mid := (Some 0); mcmd := COpenRun; mobj := None; mrun := 0 |}; TY {| mid := (Some 1); mcmd := CCheckpoint; mobj := None; mrun := 0 |}; TY {| mid := (Some 2); mcmd := (CCreate 0); mobj := None; mrun := 0 |}; TY {| mid := (Some 3); mcmd := CRead; mobj := (Some 1); mrun := 0 |}; TY {| mid := (Some 4); mcmd := CSave; mobj := None; mrun := 0 |}; TY {| mid := (Some 5); mcmd := CCheckpoint; mobj := None; mrun := 0 |}; TY {| mid := (Some 6); mcmd := (CCreate 0); mobj := None; mrun := 0 |}; TY {| mid := (Some 7); mcmd := CRead; mobj := (Some 1); mrun := 0 |}; TY {| mid := (Some 8); mcmd := CSave; mobj := None; mrun := 0 |}; TY {| mid := (Some 9); mcmd := CNull; mobj := None; mrun := 0 |}; TY {| mid := (Some 10); mcmd := CNull; mobj := None; mrun := 0 |}; TY {| mid := (Some 11); mcmd := (CCloseRun None RsEmpty); mobj := None; mrun := 0 |}; TR (VUid 0)])].
+Definition ckp_ledger := [DVal (0)%Z; DVal (1)%Z; DVal (2)%Z].
+Definition ckp_paus := [2].
+Definition ckp_stag := [0; 3].
+Definition ckp_rec := false.
+Definition ckp_evs := [EvMain (ACall 0); EvTask; EvPermit; EvTask; EvTask; EvTask; EvTask; EvTask; EvCacheDone; EvTask; EvTask; EvTask; EvTask; EvTask; EvTask; EvReqPause false; EvTask; EvMainDone (ACall 0); EvMain AResume; EvPermit; EvTask; EvTask; EvTask; EvTask; EvTask; EvTask; EvTask; EvTask; EvTask; EvTask; EvMainDone AResume].
+Definition ckp_obs : list obs := [(OTask WFuture); (OState Idle Running); (OTask WSleep0); (OPlanIn 0 (Send VNone)); (OMsg {| mid := (Some 0); mcmd := COpenRun; mobj := None; mrun := 0 |}); (ODoc (DStart 0)); (OResp (RVal (VUid 0))); (OTask WSleep0); (OPlanIn 0 (Send (VUid 0))); (OMsg {| mid := (Some 1); mcmd := CCheckpoint; mobj := None; mrun := 0 |}); (OResp (RVal VNone)); (OTask WSleep0); (OPlanIn 0 (Send VNone)); (OMsg {| mid := (Some 2); mcmd := (CCreate 0); mobj := None; mrun := 0 |}); (OResp (RVal VNone)); (OTask WSleep0); (OPlanIn 0 (Send VNone)); (OMsg {| mid := (Some 3); mcmd := CRead; mobj := (Some 1); mrun := 0 |}); (ODev 1 MRead); (OTask WFuture); (OResp (RVal (VReading 1 (0)%Z))); (OTask WSleep0); (OPlanIn 0 (Send (VReading 1 (0)%Z))); (OMsg {| mid := (Some 4); mcmd := CSave; mobj := None; mrun := 0 |}); (ODoc (DDescr 0 0 [1])); (ODoc (DEvent 0 0 1 [(1, (0)%Z)])); (OResp (RVal VNone)); (OTask WSleep0); (OPlanIn 0 (Send VNone)); (OMsg {| mid := (Some 5); mcmd := CCheckpoint; mobj := None; mrun := 0 |}); (OResp (RVal VNone)); (OTask WSleep0); (OPlanIn 0 (Send VNone)); (OMsg {| mid := (Some 6); mcmd := (CCreate 0); mobj := None; mrun := 0 |}); (OResp (RVal VNone)); (OTask WSleep0); (OPlanIn 0 (Send VNone)); (OMsg {| mid := (Some 7); mcmd := CRead; mobj := (Some 1); mrun := 0 |}); (ODev 1 MRead); (OResp (RVal (VReading 1 (1)%Z))); (OTask WSleep0); (OPlanIn 0 (Send (VReading 1 (1)%Z))); (OMsg {| mid := (Some 8); mcmd := CSave; mobj := None; mrun := 0 |}); (ODoc (DEvent 0 0 2 [(1, (1)%Z)])); (OResp (RVal VNone)); (OTask WSleep0); (OState Running Pausing); (OReq true); (OState Pausing Paused); (OTask WFuture); (OOut OutInterrupted Paused false true); (OState Paused Running); (OTask WSleep0); (OMsg {| mid := (Some 6); mcmd := (CCreate 0); mobj := None; mrun := 0 |}); (OResp (RVal VNone)); (OTask WSleep0); (OMsg {| mid := (Some 7); mcmd := CRead; mobj := (Some 1); mrun := 0 |}); (ODev 1 MRead); (OResp (RVal (VReading 1 (2)%Z))); (OTask WSleep0); (OMsg {| mid := (Some 8); mcmd := CSave; mobj := None; mrun := 0 |}); (ODoc (DEvent 0 0 2 [(1, (2)%Z)])); (OResp (RVal VNone)); (OTask WSleep0); (OTask WSleep0); (OPlanIn 0 (Send VNone)); (OMsg {| mid := (Some 9); mcmd := CNull; mobj := None; mrun := 0 |}); (OResp (RVal VNone)); (OTask WSleep0); (OPlanIn 0 (Send VNone)); (OMsg {| mid := (Some 10); mcmd := CNull; mobj := None; mrun := 0 |}); (OResp (RVal VNone)); (OTask WSleep0); (OPlanIn 0 (Send VNone)); (OMsg {| mid := (Some 11); mcmd := (CCloseRun None RsEmpty); mobj := None; mrun := 0 |}); (ODoc (DStop 0 XSuccess RsEmpty [(0, 2)])); (OResp (RVal (VUid 0))); (OTask WSleep0); (OPlanIn 0 (Send (VUid 0))); (OTask WSleep0); (OState Running Idle); (OTask WReturn); (OOut (OutReturn [0]) Idle false true)].
+
+Definition ckp_items := RE_DocsCor2.items (model_steps ckp_tapes ckp_ledger ckp_paus ckp_stag ckp_rec ckp_evs).
+Definition ev1 := DEvent 0 0 1 [(1, 0%Z)].
+Definition ev2 := DEvent 0 0 2 [(1, 1%Z)].
+Definition ev2' := DEvent 0 0 2 [(1, 2%Z)].
+Definition ck_msg := {| mid := Some 5; mcmd := CCheckpoint; mobj := None; mrun := 0 |}.
+Example C05_exact_nonvacuous :
+  check ckp_tapes ckp_ledger ckp_paus ckp_stag ckp_rec ckp_evs ckp_obs = true /\
+  DocMon2.docs_ok ckp_rec (model_steps ckp_tapes ckp_ledger ckp_paus ckp_stag ckp_rec ckp_evs) = true /\
+  stopped_behind ckp_rec (model_steps ckp_tapes ckp_ledger ckp_paus ckp_stag ckp_rec ckp_evs) = false /\
+  (* event 1 -> event 2: nothing of the stream, no rewind mark in between: consecutive *)
+  (let B := firstn 21 (skipn 37 ckp_items) in
+   ckp_items = firstn 36 ckp_items ++ RE_DocsCor2.IOb (ODoc ev1) :: B ++ RE_DocsCor2.IOb (ODoc ev2) :: skipn 59 ckp_items /\
+   forallb (fun it => negb (RE_DocsCor2.touches 0 0 it)) B = true /\
+   forallb (fun it => negb (RE_DocsCor2.rewind_mark it)) B = true) /\
+  (* event 2 -> event 2 again: a rewind mark (the resume) lies between them *)
+  (let B := firstn 26 (skipn 59 ckp_items) in
+   ckp_items = firstn 58 ckp_items ++ RE_DocsCor2.IOb (ODoc ev2) :: B ++ RE_DocsCor2.IOb (ODoc ev2') :: skipn 86 ckp_items /\
+   forallb (fun it => negb (RE_DocsCor2.touches 0 0 it)) B = true /\
+   forallb (fun it => negb (RE_DocsCor2.rewind_mark it)) B = false) /\
+  (* event 1, then the effective checkpoint, then anything (event 2, pause, resume): event 1 is never re-issued *)
+  (let B := firstn 4 (skipn 37 ckp_items) in
+   let C := firstn 42 (skipn 43 ckp_items) in
+   ckp_items = firstn 36 ckp_items ++ RE_DocsCor2.IOb (ODoc ev1) :: B ++ RE_DocsCor2.IOb (OMsg ck_msg) ::
+               RE_DocsCor2.IOb (OResp (RVal VNone)) :: C ++ RE_DocsCor2.IOb (ODoc ev2') :: skipn 86 ckp_items /\
+   forallb (fun it => negb (RE_DocsCor2.touches 0 0 it)) B = true /\
+   forallb (fun it => negb (RE_DocsCor2.rewind_mark it)) B = true /\
+   forallb (fun it => negb (RE_DocsCor2.clear_mark it)) C = true /\
+   existsb RE_DocsCor2.rewind_mark C = true) /\
+  RE_DocsCor2.on_stream 0 0 ev1 = Some 1 /\ RE_DocsCor2.on_stream 0 0 ev2 = Some 2 /\ RE_DocsCor2.on_stream 0 0 ev2' = Some 2 /\
+  (* the RunStop reports num_events = 2 = the set {1, 2} of seq_nums emitted *)
+  docs_of (flat_map snd (model_steps ckp_tapes ckp_ledger ckp_paus ckp_stag ckp_rec ckp_evs)) =
+    [DStart 0; DDescr 0 0 [1]; ev1; ev2; ev2'; DStop 0 XSuccess RsEmpty [(0, 2)]] /\
+  RE_DocsExact.seqs 0 0 [DStart 0; DDescr 0 0 [1]; ev1; ev2; ev2'] = [1; 2; 2].
+Proof. vm_compute. repeat split; reflexivity. Qed.
+
+(* the refined monitor rejects a re-issue below the checkpoint snapshot (DocMon.v accepts it) *)
+Definition susp_msg := {| mid := None; mcmd := CStartSuspender 0 false false; mobj := None; mrun := 0 |}.
+Definition below_snapshot : list (event * list obs) :=
+  [(EvTask, [ODoc (DStart 0); ODoc (DDescr 0 0 [1]); ODoc (DEvent 0 0 1 []); OMsg ck_msg; OResp (RVal VNone)]);
+   (EvTask, [OMsg susp_msg; ODoc (DEvent 0 0 1 [])])].
+Definition at_snapshot : list (event * list obs) :=
+  [(EvTask, [ODoc (DStart 0); ODoc (DDescr 0 0 [1]); ODoc (DEvent 0 0 1 []); OMsg ck_msg; OResp (RVal VNone); ODoc (DEvent 0 0 2 [])]);
+   (EvTask, [OMsg susp_msg; ODoc (DEvent 0 0 2 [])])].
+Example C05_refined_monitor_rejects :
+  DocMon2.docs_ok false below_snapshot = false /\ docs_ok false below_snapshot = true /\
+  DocMon2.docs_ok false at_snapshot = true /\
+  (* a checkpoint answered with an exception does not move the snapshot *)
+  DocMon2.docs_ok false
+    [(EvTask, [ODoc (DStart 0); ODoc (DDescr 0 0 [1]); ODoc (DEvent 0 0 1 []); OMsg ck_msg; OResp (RExn EIMS)]);
+     (EvTask, [OMsg susp_msg; ODoc (DEvent 0 0 1 [])])] = true.
 Proof. vm_compute. repeat split. Qed.
